@@ -13,7 +13,7 @@ THEOREMS = ["C07_roundtrip_refuted", "C07_roundtrip_outside_known", "C07_roundtr
             "C07_projection", "C07_projection_example", "C07_memtable_flow_exact", "C07_wal_exact",
             "C07_restart_invisible", "C07_former_witnesses_pass", "C07_sink_agrees",
             "C07_core_roundtrip_outside_known", "C07_core_known_fails", "C07_core_refuted", "C07_core_tiers_agree",
-            "C07_for_selects_exact", "C07_core_sink_characterised"]
+            "C07_for_selects_exact", "C07_core_sink_characterised", "C07_where_return_exact", "C07_where_return_example"]
 RULE = ("function level: JSON texts / scalars / cell texts through the real STORE parser, ScalarValue::from / to_json, "
         "WalEntry serde round trip, EventBuilder and real column blocks (ColumnGroupBuilder -> decoder -> both "
         "materialisations -> values_to_scalar); engine level: one schema with every field type (string, int, u64, float, "
@@ -25,7 +25,9 @@ RULE = ("function level: JSON texts / scalars / cell texts through the real STOR
         "implementation answered; distinct by (field type, stored value, layout) resp. the case line. Context ids and event type "
         "names are drawn from spelling families that look like something else (leading zeros, signs, exponents, hex, keywords, "
         "huge digit strings, surrounding blanks, JSON text) and are compared as cells in every tier incl. the passive buffer; "
-        "reads FOR <ctx> are checked in both directions")
+        "reads FOR <ctx> are checked in both directions; QUERY ... WHERE <1-3 integer/enum conditions, AND/OR> RETURN [...] with the "
+        "filtered fields at every position of the RETURN list (last, first, middle, absent, duplicated, core names mixed in) is "
+        "issued in every tier and every returned cell is compared under its column NAME (rows identified by event_id)")
 ASSUMPTIONS = [
     "Rust's Display for f64 followed by str::parse::<f64> is the identity (std guarantee); modelled as the identity for F64 blocks",
     "the column block codec (lz4, mmap reader) is the identity on typed cell lists (exercised by the value_block probe and the engine runs, not modelled)",
@@ -456,6 +458,60 @@ CFGS = [
 ]
 
 
+def gen_where_returns(rng, events, n):
+    """WHERE + RETURN reads: 1-3 filter columns (AND / OR) and a RETURN list in which the filtered fields stand at
+    every position (last, first, in the middle, absent), with core fields mixed in and duplicates.  The conditions are
+    simple integer / enum comparisons that hold for most rows; which rows they select is C02's business, the cells of
+    the rows that do come back are ours."""
+    zids = [e["zid"] for e in events] or [0]
+    conds = {
+        "zid": lambda: rng.choice(["zid >= 0", "zid <= 100000", "zid = %d" % rng.choice(zids), "zid >= %d" % rng.choice(zids)]),
+        "i": lambda: rng.choice(["i <= 9223372036854775807", "i >= -9223372036854775807"]),
+        "u": lambda: "u >= 0",
+        "oi": lambda: rng.choice(["oi <= 9223372036854775807", "oi >= -9223372036854775807"]),
+        "k": lambda: 'k = "%s"' % rng.choice(ENUM_VARIANTS[:2]),
+    }
+    names = [f for f, _, _ in FIELDS]
+    out = []
+    for v in range(n):
+        nf = 1 + (v % 3)
+        fl = list(conds)
+        filt = []
+        while len(filt) < nf:
+            f = fl.pop(rng.below(len(fl)))
+            filt.append(f)
+        ops = [rng.choice(["AND", "OR"]) for _ in filt[1:]]
+        if "k" in filt and "OR" not in ops and len(filt) > 1:
+            ops[0] = "OR"            # keep the conjunctions satisfiable for most rows
+        text = conds[filt[0]]()
+        for op, f in zip(ops, filt[1:]):
+            text += f" {op} {conds[f]()}"
+        others = []
+        while len(others) < rng.range(1, 3):
+            f = rng.choice(names)
+            if f not in filt and f not in others:
+                others.append(f)
+        shape = v % 7
+        if shape == 0:
+            ret = others + filt
+        elif shape == 1:
+            ret = filt + others
+        elif shape == 2:
+            ret = others[:1] + filt + others[1:]
+        elif shape == 3:
+            ret = list(others)
+        elif shape == 4:
+            ret = ["timestamp"] + others[:1] + list(reversed(filt)) + ["context_id"] + others[1:]
+        elif shape == 5:
+            ret = others[:1] + filt + others[:1] + filt[:1]
+        else:
+            ret = others + filt[-1:] + ["nosuch"] + filt[:-1]
+        if rng.chance(1, 3) and "zid" not in ret:
+            ret.insert(rng.below(len(ret) + 1), "zid")
+        out.append({"where": text, "filter": filt, "ret": ret})
+    return out
+
+
 def engine_cases(rng, tier):
     out = []
     n = 8 if tier == "quick" else 200
@@ -509,7 +565,7 @@ def engine_cases(rng, tier):
         # reads are also issued FOR spellings under which nothing was stored (the other members of the families)
         probes = [cx for fam in CTX_FAMILIES if any(x in fam for x in ctxs) for cx in fam if cx not in ctxs and ctx_ok(cx)]
         plan = {"wal_restart_first": rng.chance(2, 3), "restart_end": rng.chance(2, 3), "compact": rng.chance(4, 5),
-                "passive": passive, "probes": probes[:4],
+                "passive": passive, "probes": probes[:4], "wheres": gen_where_returns(rng, events, 14),
                 "ret": [rng.choice([n_ for n_, _, _ in FIELDS]) for _ in range(rng.range(1, 4))] + rng.choice([[], ["nosuch"], ["timestamp"], ["s", "s"]])}
         for ev in events:
             ev["line"] = "STORE %s FOR %s PAYLOAD {%s}" % (etype, quote_ctx(ev["ctx"], rng), ", ".join(json.dumps(k) + ": " + json_text(v, rng) for k, v in ev["send"].items()))
@@ -607,6 +663,10 @@ def run_history(c):
                 cmds.append((f"QUERY {et} FOR {quote_ctx(q1)}", None, q1))
                 cmds.append((f"REPLAY {et} FOR {quote_ctx(q2)}", None, q2))
                 cmds.append((f"REPLAY FOR {quote_ctx(q3)} RETURN [%s]" % ", ".join(plan["ret"]), plan["ret"], q3))
+            wh = plan.get("wheres") or []
+            for j in range(2 if wh else 0):
+                w_ = wh[(2 * (len(res["obs"]) // 5) + j) % len(wh)]
+                cmds.append((f"QUERY {et} WHERE {w_['where']} RETURN [%s]" % ", ".join(w_["ret"]), w_["ret"], None))
             lay = {str(i): list(v) for i, v in layout.items()}
             groups = [list(g) for g in segs]
             for cmd, ret, scope in cmds:
@@ -620,7 +680,7 @@ def run_history(c):
                 rows = []
                 for row in r["rows"]:
                     rows.append([[k, canon_json(v)] for k, v in row.items()])
-                res["obs"].append({"tag": tag, "cmd": cmd, "ret": ret, "scope": scope, "status": r["status"], "rows": rows, "layout": lay,
+                res["obs"].append({"tag": tag, "cmd": cmd, "ret": ret, "scope": scope, "where": " WHERE " in cmd, "status": r["status"], "rows": rows, "layout": lay,
                                    "groups": groups, "err": r.get("error")})
 
         def seg_dirs():
@@ -1060,6 +1120,8 @@ def engine_failures(c, impl):
         # every stored event in scope is returned
         for zs in o["layout"]:
             i = int(zs)
+            if o.get("where"):
+                break         # which rows a WHERE clause selects is C02's property; the cells of the returned rows are checked
             if (scope is None or evs[i]["ctx"] == scope) and i not in seen:
                 fails.append((f"{o['cmd']} [{o['tag']}]: stored event {i} (context {evs[i]['ctx']!r}) not returned", None))
     for x in impl.get("cells", []):
